@@ -35,6 +35,10 @@ def shards(tier, seed):
 	for i in range(n):
 		out.append(dict(name=f'classify-{i}', kind='classify', sub=i, nworlds=60 if tier == 'quick' else 400))
 	out.append(dict(name='e2e', kind='e2e', nworlds=2 if tier == 'quick' else 10))
+	for s_ in out:
+		if s_.get('kind') in ['classify', 'cons-small'] and not s_.get('sanitizer'):
+			s_['contracts'] = ['C10']
+	out.append(dict(name='suite-contracts', kind='suite-contracts', which=['C10'], tests=['tests/test_classify.py', 'tests/test_query.py']))
 	return out
 
 
